@@ -259,6 +259,24 @@ func TestC32Pairs(t *testing.T) {
 				t.Fatalf("little-endian 32 round trip failed for %d", x)
 			}
 		}
+		// decoding is a pure read: the same bytes decode to the same value again and are left as they were; a decoder
+		// given more bytes than its width reads the leading ones (a composite key, an event ID)
+		for _, keep := range [][]byte{refLE(a, 8), refBE(a, 8)} {
+			orig := append([]byte{}, keep...)
+			le1, le2 := littleendian.BytesToUint64(keep), littleendian.BytesToUint64(keep)
+			be1, be2 := bigendian.BytesToUint64(keep), bigendian.BytesToUint64(keep)
+			l32a, l32b := littleendian.BytesToUint32(keep[:4]), littleendian.BytesToUint32(keep[:4])
+			l16a, l16b := littleendian.BytesToUint16(keep[:2]), littleendian.BytesToUint16(keep[:2])
+			if le1 != le2 || be1 != be2 || l32a != l32b || l16a != l16b || !bytes.Equal(keep, orig) {
+				t.Fatalf("decoding %x twice gave %d/%d (little endian), %d/%d (big endian), %d/%d, %d/%d; the bytes are now %x", orig, le1, le2, be1, be2, l32a, l32b, l16a, l16b, keep)
+			}
+		}
+		long := append(refBE(a, 8), refBE(b, 8)...)
+		if bigendian.BytesToUint64(long) != a || bigendian.BytesToUint32(long) != uint32(a>>32) || bigendian.BytesToUint16(long) != uint16(a>>48) ||
+			idx.BytesToBlock(long) != idx.Block(a) || idx.BytesToEpoch(long) != idx.Epoch(a>>32) || idx.BytesToLamport(long[4:]) != idx.Lamport(uint32(a)) ||
+			idx.BytesToFrame(long) != idx.Frame(a>>32) || idx.BytesToEvent(long) != idx.Event(a>>32) || idx.BytesToValidatorID(long) != idx.ValidatorID(a>>32) {
+			t.Fatalf("decoders given the 16 bytes %x do not read the leading bytes", long)
+		}
 		x16, y16 := uint16(a>>7), uint16(b>>7)
 		if bytes.Compare(bigendian.Uint16ToBytes(x16), bigendian.Uint16ToBytes(y16)) != cmpU64(uint64(x16), uint64(y16)) {
 			t.Fatalf("16-bit order violated for %d vs %d", x16, y16)
